@@ -26,7 +26,7 @@ pub fn def() -> PropDef {
                chunk, unlimited}, maximal item size in {64 B, 1 KiB, 64 KiB}, content seed) drive an on-the-fly \
                generated stream (never materialised; DIMACS streams come in three shapes: clauses with occasional \
                comments, a header whose declared clause count is reached after 100 clauses followed only by comment \
-               and blank lines, one clause spread over the whole stream with comment lines in between, fixed-width 16-byte clause lines behind a 15-byte comment so that power-of-two reads always end inside a token; BTOR2 streams optionally end with a malformed justice line declaring 6*10^7 conditions, binary AIGER streams optionally with a multi-megabyte run of continuation bytes in place of the last gate; the AIGER section readers also run in skip mode, where all but the first gate are left to symbols() to pass over; one configuration in six drives the DeferredReader directly - request_more/advance, request(k)/advance(k), or byte look-ahead to the next LF - instead of a parser) of N bytes with N >= 64 x bound through the parser while a \
+               and blank lines, one clause spread over the whole stream with comment lines in between, fixed-width 16-byte clause lines behind a 15-byte comment so that power-of-two reads always end inside a token; BTOR2 streams optionally end with a malformed justice line declaring 6*10^7 conditions, binary AIGER streams optionally with a multi-megabyte run of continuation bytes in place of the last gate or with twice as many gates as the header declares (whose bytes avoid white space); the reader is constructed by from_read or from_buf_reader (capacities 0..4 MiB), its chunk size configured once or twice; the AIGER section readers also run in skip mode, where all but the first gate are left to symbols() to pass over; one configuration in six drives the DeferredReader directly - request_more/advance, request(k)/advance(k), or byte look-ahead to the next LF - instead of a parser) of N bytes with N >= 64 x bound through the parser while a \
                counting global allocator records the peak live heap. Oracle: peak <= 16 x chunk + 16 x max_item + \
                64 KiB, and the parse ends cleanly. Non-trivial: N >= 64 x bound and items of the maximal size \
                occurred (every 500th item is padded to it). evaluations = configurations run.",
@@ -73,6 +73,14 @@ pub struct Config {
     /// generated k; 3: look for the next LF with `request_byte_at_offset`, advance past it.
     #[serde(default)]
     pub direct: u8,
+    /// `set_chunk_size(pre_chunk)` is called before the chunk size proper is configured (a caller
+    /// that lowers or raises a previously configured size; nothing is read in between).
+    #[serde(default)]
+    pub pre_chunk: Option<usize>,
+    /// Construct with `from_buf_reader` on a new BufReader of this capacity (the heap is measured
+    /// from the moment the reader exists: the BufReader's own buffer is gone by then).
+    #[serde(default)]
+    pub bufreader: Option<usize>,
 }
 
 fn mix(seed: u64, i: u64) -> u64 {
@@ -168,6 +176,11 @@ fn item(cfg: &Config, idx: u64, out: &mut Vec<u8>) {
             let code = 2 * (idx + 1);
             write!(out, "{} {} {}\n", code, mix(r, 1) % code, mix(r, 2) % code).unwrap();
         }
+        ParserId::Aig if cfg.shape == 2 => {
+            // deltas that never are white space bytes (the surplus gates then form one long "word")
+            out.push(if r & 1 == 0 || idx == 0 { 1 } else { 2 });
+            out.push((r >> 1 & 1) as u8);
+        }
         ParserId::Aig => {
             let code = 2 * (idx + 1);
             let d0 = 1 + mix(r, 1) % code.min(300);
@@ -213,6 +226,8 @@ impl Stream {
         let header = match (cfg.parser, cfg.shape) {
             (ParserId::Aag, _) => Some(format!("aag {items} 0 0 0 {items}\n").into_bytes()),
             (ParserId::Aig, 1) => Some(format!("aig {0} 0 0 0 {0}\n", items + 1).into_bytes()),
+            // fewer gates declared than present: the surplus is where symbols/comment/EOF belong
+            (ParserId::Aig, 2) => Some(format!("aig {0} 0 0 0 {0}\n", items / 2).into_bytes()),
             (ParserId::Aig, _) => Some(format!("aig {items} 0 0 0 {items}\n").into_bytes()),
             (ParserId::Cnf, 1) => Some(b"p cnf 60000000 100\n".to_vec()),
             (ParserId::Wcnf, 1) => Some(b"p wcnf 60000000 100 9\n".to_vec()),
@@ -299,6 +314,22 @@ impl Read for Stream {
     }
 }
 
+/// Builds the reader as configured; returns it with the allocation window opened once it exists.
+fn make_reader(cfg: &Config, src: Stream) -> (DeferredReader<'static>, alloc::Window) {
+    let mut reader = match cfg.bufreader {
+        Some(cap) => DeferredReader::from_buf_reader(std::io::BufReader::with_capacity(cap, src)),
+        None => DeferredReader::from_read(src),
+    };
+    let w = alloc::window();
+    if let Some(p) = cfg.pre_chunk {
+        reader.set_chunk_size(p);
+    }
+    if let Some(c) = cfg.chunk {
+        reader.set_chunk_size(c);
+    }
+    (reader, w)
+}
+
 pub fn bound(cfg: &Config) -> usize {
     16 * cfg.chunk.unwrap_or(16 << 10) + 16 * cfg.max_item + (64 << 10)
 }
@@ -313,12 +344,8 @@ pub fn check(cfg: &Config, obs: &mut Obs) -> CheckResult {
         flag: cfg.skip && matches!(cfg.parser, ParserId::Aag | ParserId::Aig),
     };
     let measured = alloc::installed();
-    let w = alloc::window();
     let (src, log, items) = Stream::new(cfg.clone());
-    let mut reader = DeferredReader::from_read(src);
-    if let Some(c) = cfg.chunk {
-        reader.set_chunk_size(c);
-    }
+    let (reader, w) = make_reader(cfg, src);
     let t = run_on_reader(&spec, reader, log.clone(), false);
     let peak = w.peak();
     let delivered = log.borrow().delivered;
@@ -333,7 +360,10 @@ pub fn check(cfg: &Config, obs: &mut Obs) -> CheckResult {
         obs.class("n>=64xbound");
     }
     let p = cfg.parser.name();
-    let malformed_tail = matches!(cfg.parser, ParserId::Btor2 | ParserId::Aig) && cfg.shape == 1;
+    let malformed_tail = (matches!(cfg.parser, ParserId::Btor2 | ParserId::Aig) && cfg.shape == 1)
+        || (cfg.parser == ParserId::Aig && cfg.shape == 2);
+    obs.class_if(cfg.pre_chunk.is_some(), "chunk-size-configured-twice");
+    obs.class_if(cfg.bufreader.is_some(), "from_buf_reader");
     obs.class_if(spec.flag, "aiger-sections-skipped");
     obs.class_if(malformed_tail, "malformed-tail");
     if malformed_tail && !matches!(t.fin, Final::Syntax { .. }) {
@@ -359,6 +389,7 @@ pub fn check(cfg: &Config, obs: &mut Obs) -> CheckResult {
         (true, 2) => 1,   // the one long clause
         (true, 3) => items - 1, // the first line is a comment
         _ if spec.flag => 2,    // header and the first and gate; the rest is skipped by symbols()
+        (_, 2) if cfg.parser == ParserId::Aig => items / 2 + 1, // the declared gates
         _ => items + if cfg.parser.is_aiger() { 1 } else { 0 },
     };
     obs.class(format!("shape/{}", cfg.shape));
@@ -390,12 +421,8 @@ pub fn check(cfg: &Config, obs: &mut Obs) -> CheckResult {
 /// The reader itself, driven the way a hand-written scanner would (no parser on top).
 fn check_direct(cfg: &Config, obs: &mut Obs) -> CheckResult {
     let measured = alloc::installed();
-    let w = alloc::window();
     let (src, log, items) = Stream::new(cfg.clone());
-    let mut reader = DeferredReader::from_read(src);
-    if let Some(c) = cfg.chunk {
-        reader.set_chunk_size(c);
-    }
+    let (mut reader, w) = make_reader(cfg, src);
     let mut advanced = 0u64;
     let mut step = 0u64;
     match cfg.direct {
@@ -506,8 +533,10 @@ fn config_strategy(quick: bool) -> impl Strategy<Value = Config> {
         prop_oneof![2 => Just(0u8), 1 => Just(1u8), 1 => Just(2u8), 1 => Just(3u8)],
         any::<bool>(),
         prop_oneof![5 => Just(0u8), 1 => 1u8..=3],
+        prop_oneof![4 => Just(None), 1 => proptest::sample::select(vec![1usize << 30, 1 << 20, 3, 100_000]).prop_map(Some)],
+        prop_oneof![5 => Just(None), 1 => proptest::sample::select(vec![0usize, 64, 8192, 4 << 20]).prop_map(Some)],
     )
-        .prop_map(move |(parser, chunk, read, max_item, seed, shape, skip, direct)| {
+        .prop_map(move |(parser, chunk, read, max_item, seed, shape, skip, direct, pre_chunk, bufreader)| {
             let parser = if direct != 0 { ParserId::Cnf } else { parser };
             let max_item = if matches!(parser, ParserId::Aag | ParserId::Aig) { 64 } else { max_item };
             let mut cfg = Config {
@@ -519,10 +548,13 @@ fn config_strategy(quick: bool) -> impl Strategy<Value = Config> {
                 n: 0,
                 skip: skip && matches!(parser, ParserId::Aag | ParserId::Aig),
                 direct,
+                pre_chunk: if chunk.is_some() { pre_chunk } else { None },
+                bufreader,
                 shape: match (parser, shape) {
                     _ if direct != 0 => 0,
                     (ParserId::Btor2, 1) => 1,
                     (ParserId::Aig, 1) => 1,
+                    (ParserId::Aig, 2) => 2,
                     (ParserId::Cnf, s) => s,
                     (p, 3) if p.is_dimacs() => 0,
                     (p, s) if p.is_dimacs() => s,
